@@ -233,6 +233,54 @@ def sarabandi(chk, prog, combos):
                construct="inversion arms %s" % "".join("T" if b else "F" for b in combo), **kw)
 
 
+def sarabandi_arms(chk, prog):
+    """SARABANDI.arm: the method has two exact expressions for each |q_i|: 0.5 sqrt(1 + d_i), and 0.5 sqrt(nom_i / (3 - d_i)), which is 0/0 where d_i = 3 (the
+    identity for q_w) and ill-conditioned near it.  The threshold test `d_i > eta` exists to keep the quotient away from that point: every division by `3 - d`
+    must sit on the side where `d > eta` is FALSE (else-branch of the `if`, third argument of an `np.where`)."""
+    f = prog.func(ORI + "::sarabandi")
+
+    def three_minus(e):
+        return isinstance(e, ast.BinOp) and isinstance(e.op, ast.Sub) and isinstance(e.left, ast.Constant) and e.left.value in (3, 3.0)
+    # names bound to a `3 - d` expression
+    denoms = {s.targets[0].id for s in ast.walk(f.node) if isinstance(s, ast.Assign) and len(s.targets) == 1 and isinstance(s.targets[0], ast.Name) and three_minus(s.value)}
+
+    def is_div_by_denom(x):
+        return isinstance(x, ast.BinOp) and isinstance(x.op, ast.Div) and (three_minus(x.right) or (isinstance(x.right, ast.Name) and x.right.id in denoms))
+    parents = {}
+    for p_ in ast.walk(f.node):
+        for ch in ast.iter_child_nodes(p_):
+            parents[id(ch)] = p_
+    n = 0
+    for x in ast.walk(f.node):
+        if not is_div_by_denom(x):
+            continue
+        n += 1
+        side, node, cond = None, x, None
+        while id(node) in parents and side is None:
+            par = parents[id(node)]
+            if isinstance(par, ast.If) and isinstance(par.test, ast.Compare) and isinstance(par.test.ops[0], (ast.Gt, ast.GtE)):
+                side, cond = ("selected" if any(node is b or any(node is y for y in ast.walk(b)) for b in par.body) else "rejected"), par.test
+            elif isinstance(par, ast.IfExp) and isinstance(par.test, ast.Compare) and isinstance(par.test.ops[0], (ast.Gt, ast.GtE)) and node is not par.test:
+                side, cond = ("selected" if node is par.body else "rejected"), par.test
+            elif isinstance(par, ast.Call) and ast.unparse(par.func).split(".")[-1] == "where" and len(par.args) == 3 and isinstance(par.args[0], ast.Compare) \
+                    and isinstance(par.args[0].ops[0], (ast.Gt, ast.GtE)) and node is not par.args[0]:
+                side, cond = ("selected" if node is par.args[1] else "rejected"), par.args[0]
+            node = par
+        site = "%s::%s" % (f.ref, ast.unparse(x)[:50])
+        if side is None:
+            chk.error("SARABANDI.arm: the division `%s` is not under a recognisable `d > eta` selection (cannot decide)" % ast.unparse(x)[:50])
+        elif side == "rejected":
+            chk.record("SARABANDI.arm", site, "the quotient form is used only where `%s` is false (away from d = 3)" % ast.unparse(cond))
+        else:
+            why = ("`%s` is evaluated on the side where `%s` holds: d reaches 3 there (the identity, and every rotation whose axis has a zero component for the vector parts), "
+                   "where the quotient is 0/0 = NaN, and it is ill-conditioned all around that point; the well-conditioned form 0.5 sqrt(1 + d) belongs on this side"
+                   % (ast.unparse(x)[:50], ast.unparse(cond)))
+            chk.record("SARABANDI.arm", site, "the quotient form is used only below the threshold", verdict="VIOLATION", detail=why)
+            chk.finding("SARABANDI.arm", ORI, "sarabandi", "quotient form selected above the threshold: %s" % ast.unparse(x)[:50], why, line=x.lineno)
+    if n < 1:
+        chk.error("SARABANDI.arm: no division by (3 - d) found in sarabandi (4 confirmed by hand; a vectorised copy has one)")
+
+
 def itzhack(chk, prog):
     f = prog.func(ORI + "::itzhack")
     chk.touch(f)
@@ -398,6 +446,7 @@ def run(chk, prog, tier):
     all16 = list(itertools.product((True, False), repeat=4))
     quick = [(True, True, True, True), (False, True, True, True), (True, False, False, False), (False, False, False, False), (False, True, False, True), (True, True, False, False)]
     sarabandi(chk, prog, all16 if tier == "thorough" else quick)
+    sarabandi_arms(chk, prog)
     itzhack(chk, prog)
     unit_real(chk, prog)
     from props.c07 import dispatch_rule
